@@ -73,9 +73,7 @@ class VProcess:
 
     def kill(self):
         self.simproc.alive = False
-        for path, owner in list(V.W.iplocks.items()):
-            if owner == self.vpid:
-                del V.W.iplocks[path]
+        V.PosixLockTable.drop_all(self.vpid)
         self.code = -9
         self.exited = True
         self.body_running = False
@@ -88,6 +86,14 @@ class VProcess:
         lockp, done, failed, pid = (base.with_suffix(s) for s in (".lock", ".done", ".failed", ".pid"))
         jobid = script.parent.name[:8]
         code = None
+        try:
+            compile(V._orig["read_text"](script), str(script), "exec")
+        except (SyntaxError, ValueError, OSError):
+            # a truncated script: the interpreter stops with an error before anything of the task runner has run
+            self.code = 1
+            self.exited = True
+            V.W.events.append(("exit", self.name, jobid, self.vpid, 1))
+            return
         V.ip_acquire(str(lockp))
         # like the real TaskRunner: parameters are read after the job lock has been taken
         try:
@@ -130,9 +136,7 @@ class VProcess:
         self.code = code
         self.exited = True
         # process death: every lock it still holds goes away
-        for path, owner in list(V.W.iplocks.items()):
-            if owner == self.vpid:
-                del V.W.iplocks[path]
+        V.PosixLockTable.drop_all(self.vpid)
         V.W.events.append(("exit", name, jobid, self.vpid, code))
 
 
@@ -172,6 +176,13 @@ class VProcessBuilder:
         self.command = []
 
     def start(self, task_mode=False):
+        # like subprocess.Popen on the generated script: it must be executable and start with an interpreter line
+        script = str(self.command[0])
+        if not os.access(script, os.X_OK):
+            raise PermissionError(13, "Permission denied", script)
+        with open(script, "rb") as fp:
+            if fp.read(2) != b"#!":
+                raise OSError(8, "Exec format error", script)
         V.W.next_pid += 1
         vpid = V.W.next_pid
         owner = V.current_proc()
@@ -217,6 +228,11 @@ def make_connector(path):
 
         def processbuilder(self):
             return VProcessBuilder()
+
+        def setExecutable(self, path, flag):
+            # a scheduling (and kill) point before the mode change: the script is complete but not executable yet
+            V.fs_event("chmod", path)
+            return super().setExecutable(path, flag)
 
     return VConnector(Path(path))
 
